@@ -37,6 +37,7 @@ class Holder:
     u: Optional[Union[Left, Right]] = field(default=None, metadata={"type": "Element", "nillable": True})
     us: List[Union[Left, Right]] = field(default_factory=list, metadata={"type": "Element"})
     m: Optional[Union[Left, int]] = field(default=None, metadata={"type": "Element"})
+    ms: List[Union[Left, int, str]] = field(default_factory=list, metadata={"type": "Element"})  # (an empty element is the empty string here, as it is for List[str])
     tail: Optional[str] = field(default=None, metadata={"type": "Element"})
 
 
@@ -52,7 +53,7 @@ def instances(rng):
 
     out = []
     for _ in range(12):
-        out.append(Holder(u=rng.choice([None, left(), right()]), us=[rng.choice([left, right])() for _ in range(rng.randrange(0, 4))], m=rng.choice([None, left(), 5, 0, -3]), tail=rng.choice([None, "t"])))
+        out.append(Holder(u=rng.choice([None, left(), right()]), us=[rng.choice([left, right])() for _ in range(rng.randrange(0, 4))], m=rng.choice([None, left(), 5, 0, -3]), ms=[rng.choice([left(), 0, 12, "a", "two words", "", "é"]) for _ in range(rng.randrange(0, 4))], tail=rng.choice([None, "t"])))
     return out
 
 
